@@ -113,3 +113,52 @@ Proof.
   destruct (mapM (fun g => do o <- mapM (eval_item strict g) items; Ok (hd [] g, o)) gs1) as [outs|e]; cbn [bind]; [|reflexivity].
   unfold apply_order_limit. cbn. unfold offset_rows. cbn. reflexivity.
 Qed.
+
+(* SELECT DISTINCT items .. GROUP BY keys HAVING h: the rows of the statement without DISTINCT, and of these the
+   first one of every key - DISTINCT comes after HAVING, whatever the condition *)
+Require Import Csvq.Proofs.Lateral.
+Theorem distinct_having_pipeline strict src wh keys his h items :
+  eval_query strict (Q (BSelect src wh (Some keys) (Some (his, h)) items true) [] None None) =
+  (do rows <- eval_query strict (Q (BSelect src wh (Some keys) (Some (his, h)) items false) [] None None);
+   Ok (dedup_by (row_key strict) rows [])).
+Proof.
+  change (eval_query strict (Q (BSelect src wh (Some keys) (Some (his, h)) items true) [] None None))
+    with (do rows <- eval_body strict (BSelect src wh (Some keys) (Some (his, h)) items true); apply_order_limit strict [] None None rows).
+  change (eval_query strict (Q (BSelect src wh (Some keys) (Some (his, h)) items false) [] None None))
+    with (do rows <- eval_body strict (BSelect src wh (Some keys) (Some (his, h)) items false); apply_order_limit strict [] None None rows).
+  change (eval_body strict (BSelect src wh (Some keys) (Some (his, h)) items true))
+    with (do rows <- eval_source strict src;
+          do rows1 <- (match wh with None => Ok rows | Some c => filter_rows c rows end);
+          do outs <- (do gs <- group_rows strict keys rows1;
+                      do gs1 <- filter_groups strict his h gs;
+                      mapM (fun g => do o <- mapM (eval_item strict g) items; Ok (hd [] g, o)) gs1);
+          Ok (pick outs (distinct_idx (map (fun ro => row_key strict (snd ro)) outs)))).
+  change (eval_body strict (BSelect src wh (Some keys) (Some (his, h)) items false))
+    with (do rows <- eval_source strict src;
+          do rows1 <- (match wh with None => Ok rows | Some c => filter_rows c rows end);
+          do outs <- (do gs <- group_rows strict keys rows1;
+                      do gs1 <- filter_groups strict his h gs;
+                      mapM (fun g => do o <- mapM (eval_item strict g) items; Ok (hd [] g, o)) gs1);
+          Ok outs).
+  destruct (eval_source strict src) as [rows|e]; cbn [bind]; [|reflexivity].
+  destruct (match wh with None => Ok rows | Some c => filter_rows c rows end) as [kept|e]; cbn [bind]; [|reflexivity].
+  destruct (group_rows strict keys kept) as [gs|e]; cbn [bind]; [|reflexivity].
+  destruct (filter_groups strict his h gs) as [gs1|e]; cbn [bind]; [|reflexivity].
+  destruct (mapM (fun g => do o <- mapM (eval_item strict g) items; Ok (hd [] g, o)) gs1) as [outs|e]; cbn [bind]; [|reflexivity].
+  unfold apply_order_limit. cbn. unfold offset_rows. cbn.
+  f_equal. apply distinct_step.
+Qed.
+
+(* HAVING FALSE-on-every-bucket yields no row at all (not an empty group) *)
+Theorem filter_groups_none_true strict his h gs :
+  (forall g, In g gs -> exists x, having_value strict his h g = Ok x /\ is_true x = false) ->
+  filter_groups strict his h gs = Ok [].
+Proof.
+  intros H.
+  rewrite (filter_groups_spec strict his h gs
+             (fun g => match having_value strict his h g with Ok x => x | Err _ => VNull end)).
+  - f_equal. induction gs as [|g gs IH]; [reflexivity|]. cbn [filter].
+    destruct (H g (or_introl eq_refl)) as [x [Hx Ht]]. rewrite Hx, Ht.
+    apply IH. intros g' Hg'. apply H. right. exact Hg'.
+  - intros g Hg. destruct (H g Hg) as [x [Hx _]]. rewrite Hx. reflexivity.
+Qed.
